@@ -468,6 +468,6 @@ META = {
              'final diff equal the dictionary. Every history is then compiled into a contract and executed by Interpreter.run_code against a simulated node serving the on-chain '
              'entries through the real RPC query layer; observations, the emitted lazy diff applied to the chain contents, its action/id and every key_hash are compared.'),
     'design_ref': 'DESIGN.md section 5 C15, A.3',
-    'note': 'Trusted: BigMapNode (RpcNode subclass serving context/big_maps/<id>/<hash>), independent key hash computation, script generation. Bounds: 2 (3) abstract keys concretised in 7 key type families, values 1..2, 3 (4) operations, existing / fresh / copied big_maps.',
+    'note': 'Three storage shapes: the big_map first in the storage, inside the value of an ordinary map, followed by a second big_map created in the same run. Trusted: BigMapNode (RpcNode subclass serving context/big_maps/<id>/<hash>), independent key hash computation, script generation. Bounds: 2 (3) abstract keys concretised in 7 key type families, values 1..2, 3 (4) operations, existing / fresh / copied big_maps.',
     'technique': 'TLA+ layered-dictionary model, TLC exhaustive over histories; replay as contracts through Interpreter.run_code against a simulated node',
 }
